@@ -30,6 +30,7 @@ import (
 	"crypto/sha256"
 	"encoding/hex"
 	"encoding/json"
+	"flag"
 	"fmt"
 	"os"
 	"sort"
@@ -127,7 +128,14 @@ type drv struct {
 	step  int
 	api   string
 	kept  map[string]*inst
+	// behaviours already replayed on this worker's long-lived children: a disagreement observed on such a
+	// child may depend on them, so they are saved next to the replay file and replayed first by `one`
+	hist     []*core.Behaviour
+	histFile string
 }
+
+// oneShot: the process replays a single saved behaviour (`one`): nothing outlives it
+var oneShot bool
 
 func fnv(s string) int64 {
 	h := int64(1469598103934665603)
@@ -181,6 +189,24 @@ func scanSizes(b *core.Behaviour) (nk, nv int) {
 var classes = []string{"curated", "random", "prefix", "ticket"}
 
 func (d *drv) Reset(env *core.Env, b *core.Behaviour) error {
+	if hf, _ := b.Meta["kept_history"].(string); oneShot && hf != "" && d.histFile == "" {
+		// rebuild the history of the long-lived children this behaviour was observed on
+		d.histFile = hf
+		if hb, err := core.ReadBehaviours(hf); err == nil {
+			oneShot = false
+			for _, x := range hb {
+				if err := d.Reset(env, x); err == nil {
+					for _, s := range x.Steps {
+						if _, _, err := d.Apply(s); err != nil {
+							break
+						}
+					}
+				}
+				d.Close()
+			}
+			oneShot = true
+		}
+	}
 	d.env, d.b = env, b
 	d.ids = map[int]*rootInfo{0: {hash: emptyRoot}}
 	d.step = 0
@@ -288,7 +314,7 @@ func (d *drv) Reset(env *core.Env, b *core.Behaviour) error {
 
 func (d *drv) Close() {
 	for _, in := range d.insts {
-		if in.keep && !in.dead {
+		if in.keep && !in.dead && !oneShot {
 			// the next behaviour starts without pending updates
 			for _, h := range in.pend {
 				if st := in.be.Rollback(h); strings.HasPrefix(st, "crash:") {
@@ -317,7 +343,33 @@ func (d *drv) Close() {
 	d.insts = nil
 	if d.env != nil {
 		flushStats(d.env.Opt("stats", ""))
+		if d.env.Opt("kcfgs", "") != "" && d.b != nil && !oneShot {
+			d.hist = append(d.hist, d.b)
+		}
 	}
+}
+
+// saveHistory writes the behaviours replayed so far on this worker's long-lived children and names
+// the file in the behaviour's meta data (which the replay file carries).
+func (d *drv) saveHistory() {
+	dir := d.env.Opt("histdir", "")
+	if dir == "" || len(d.hist) == 0 || d.env.Opt("kcfgs", "") == "" {
+		return
+	}
+	os.MkdirAll(dir, 0o755)
+	p := fmt.Sprintf("%s/%s-statestore-%d-history-%x.ndjson", dir, d.env.Prop, d.env.Seed, fnv(d.b.ID)&0xffffff)
+	f, err := os.Create(p)
+	if err != nil {
+		return
+	}
+	defer f.Close()
+	for _, hb := range d.hist {
+		c := *hb
+		c.Meta = nil
+		bb, _ := json.Marshal(&c)
+		f.Write(append(bb, '\n'))
+	}
+	d.b.Meta["kept_history"] = p
 }
 
 // merge: all instances must have observed the same thing
@@ -676,11 +728,15 @@ func (d *drv) Apply(s core.Step) (any, any, error) {
 	// a reply that already disagrees is reported as such; the projection is only meaningful (and only
 	// well-defined: a refused update creates no root to read) when the reply agrees
 	if exp, ok := s["ret"]; ok && !core.Match(exp, core.Norm(ret)) {
+		d.saveHistory()
 		return ret, nil, nil
 	}
 	chk, err := d.project(s)
 	if err != nil {
 		return nil, nil, err
+	}
+	if exp, ok := s["chk"]; ok && chk != nil && !core.Match(exp, core.Norm(chk)) {
+		d.saveHistory()
 	}
 	return ret, chk, nil
 }
@@ -919,6 +975,22 @@ func main() {
 	log.Root().SetHandler(log.DiscardHandler())
 	if len(os.Args) > 1 && os.Args[1] == "child" {
 		os.Exit(childMain())
+	}
+	oneShot = len(os.Args) > 1 && os.Args[1] == "one"
+	if len(os.Args) > 1 && os.Args[1] == "busworker" {
+		fs := flag.NewFlagSet("busworker", flag.ExitOnError)
+		out := fs.String("out", "", "events file")
+		prop := fs.String("prop", "", "property")
+		seed := fs.Int64("seed", 1, "seed")
+		opt := fs.String("opt", "", "k=v,k=v")
+		fs.Parse(os.Args[2:])
+		env := &core.Env{Prop: *prop, Seed: *seed, Opts: map[string]string{}}
+		for _, kv := range strings.Split(*opt, ",") {
+			if p := strings.SplitN(kv, "=", 2); len(p) == 2 {
+				env.Opts[p[0]] = p[1]
+			}
+		}
+		os.Exit(busWorkerMain(*out, env))
 	}
 	core.Main(&core.Family{
 		Name:      "statestore",
